@@ -38,7 +38,7 @@ Definition batch_only (o:op) : bool :=
   | OpAddCons _ (Uq _ _) => true
   | OpDropCons _ false _ => true
   | OpDropColumn _ _ => true
-  | OpAddColumn _ c => negb (c_null c) || c_pk c || match c_default c with Some (DExpr _) => true | _ => false end
+  | OpAddColumn _ c => negb (c_null c) || c_pk c || match c_default c with Some (DExpr _) | Some (DComputed _ _) => true | _ => false end
   | OpAddFk _ _ | OpDropFk _ _ _ => true
   | _ => false
   end.
@@ -135,8 +135,12 @@ Fixpoint fk_sigs_distinct (fs:list fk) : bool :=
   match fs with [] => true | f :: r => negb (existsb (fk_cols_eqb f) r) && fk_sigs_distinct r end.
 (* "all constraints named" *)
 Definition all_named (S:schema) : bool := forallb (fun t => forallb f_named (t_fks t)) S.
+(* batch mode cannot rebuild a table that has a generated column (INSERT INTO the new table names every column; SQLite: "cannot
+   INSERT into generated column"), so no upgrade that needs batch mode runs on such a table: generated columns are outside C06 *)
+Definition no_computed (S:schema) : bool := forallb (fun t => forallb (fun c => negb (is_computed (c_default c))) (t_cols t)) S.
 Definition inclass_C06_core (i:c06_in) : bool :=
   no_dangling_fk (fst i) (snd i) && forallb (fun t => fk_sigs_distinct (t_fks t)) (fst i) && forallb (fun t => fk_sigs_distinct (t_fks t)) (snd i) &&
   wf_schemab (fst i) && wf_schemab (snd i) && defaults_ok (fst i) && defaults_ok (snd i)
   && forallb (fun t => sigs_distinct (t_cons t)) (fst i) && forallb (fun t => sigs_distinct (t_cons t)) (snd i).
-Definition inclass_C06 (i:c06_in) : bool := all_named (fst i) && all_named (snd i) && inclass_C06_core i.
+Definition inclass_C06 (i:c06_in) : bool :=
+  all_named (fst i) && all_named (snd i) && no_computed (fst i) && no_computed (snd i) && fk_names_ok (fst i) (snd i) && inclass_C06_core i.
